@@ -10,13 +10,16 @@ CHECKS = {
     'C09': ('exploration', 'runtime monitoring of the real event loop: collision monitor + quiescence oracle over exhaustively enumerated and random message-level schedules',
             'Every ordered list of <=2 (thorough: sampled 3) local triggers on either endpoint is interleaved in every possible way with the delivery order of in-flight datagrams, each leaf re-executed through the real main_loop; plus thousands of seeded lossless/lossy walks. After every step: no exception escapes an entry point, no IkeSaStateError, no generic-exception recovery, the (state,event,state\') triple is in the allowed relation, collisions are answered per RFC 7296 2.25; after a lossless drain nobody waits and both tables agree. Held on the executions observed, nothing more.',
             'honest peers with mirror-image configurations; fake kernel and network; timers fired by making the deadline due; transition relation written by hand from the RFC (DESIGN.md appendix A)', '2/C09'),
+    'C10': ('fault_enumeration', 'runtime monitoring: model SAD (decoded from the real netlink request bytes) compared with the tracked CHILD_SAs after every real main_loop iteration, under a kernel refusal injected at every request index',
+            'For ~30 scripted histories (all negotiation paths, collisions, refused negotiations, INVALID_KE retries, timeouts) a kernel error is injected at each individual netlink request of each endpoint, one run per index; after every event the model SAD must equal the tracked set, an IKE rekey must not touch the kernel and no un-injected EEXIST/ESRCH may occur. Random lossless/lossy walks add unscripted histories.',
+            'fake kernel semantics (EEXIST/ESRCH like Linux, injected refusal = nothing applied); tracked set read from the controller between iterations', '2/C10'),
     'C16': ('exploration', 'runtime monitoring: table-exactness, routing, status-query and EXPIRE-owner monitors after every real main_loop iteration',
             'Table invariants (no duplicate, no DELETED entry, nothing returns, successor exactly once) and routing (owner of the header SPI selected by the I flag; fresh responder per IKE_SA_INIT request; unknown SPI has no effect) are evaluated after every step of exhaustive <=1-duplicate and sampled <=3-duplicate schedules of rekey/delete exchanges, hub histories with several concurrent IKE_SAs and simultaneous initiations, a forged-header SPI x flag x exchange matrix, status queries and EXPIRE notices incl. a peer-chosen SPI collision.',
             'fake kernel/network; forged datagrams are unauthenticated (routing observed, not acceptance); SPI collision forced through the peer\'s os.urandom', '2/C16'),
 }
 
 
-READY = {'C09', 'C16'}
+READY = {'C09', 'C10', 'C16'}
 
 
 def main():
